@@ -266,7 +266,7 @@ def r95(db, ctx):
             ctx.ok('R9.6', f, 'd[i][x.as_index()] += 1 for (i, x) in enumerate(seq)', ['row = position, column = symbol'])
             rels = G.relations(f, R, s['block'])
             # guard: len(seq) == rows(d) on this path
-            g = [r for r in rels if r[0] == 'eq' and 'len' in X.canon(r[1]) + X.canon(r[2]) and 'rows' in X.canon(r[1]) + X.canon(r[2])]
+            g = [r for r in rels if r[0] == 'eq' and ((common.is_len_of(r[1]) and common.is_call_to(r[2], '::rows')) or (common.is_len_of(r[2]) and common.is_call_to(r[1], '::rows')))]
             if g:
                 n += 1
                 ctx.ok('R9.5', f, 'counts are added only after seq.len() == rows(matrix)', [f'{X.show(g[0][1], 60)} == {X.show(g[0][2], 60)}'])
